@@ -273,16 +273,35 @@ def _iters():
         for n in range(0, smax_t + 1):
             t = tq(n, smax_q, smax_t)
             m = dict(kind=kind, n=n)
-            inst(f"sorted_{kind}_iter_n{n}", f"iters::sorted_iter::<{ty}, {n}>()",
+            inst(f"sorted_{kind}_iter_n{n}", f"iters::sorted_iter::<{ty}, {n}>(Tables::Any)",
                  kind, n, {"C06": t, "C13": tq(n, 2, smax_t)}, "ITER", meta=dict(iter="into_sorted_iter", **m),
                  cost=n * n * (20 if kind == "dq" else 4))
-            inst(f"sorted_{kind}_vec_desc_n{n}", f"iters::sorted_vec::<{ty}, {n}>(false)",
+            inst(f"sorted_{kind}_vec_desc_n{n}", f"iters::sorted_vec::<{ty}, {n}>(false, Tables::Any)",
                  kind, n, {"C06": t}, "ITER", meta=dict(op="into_sorted_vec/desc", **m),
                  cost=n * n * (20 if kind == "dq" else 4))
             if kind == "dq":
-                inst(f"sorted_{kind}_vec_asc_n{n}", f"iters::sorted_vec::<{ty}, {n}>(true)",
+                inst(f"sorted_{kind}_vec_asc_n{n}", f"iters::sorted_vec::<{ty}, {n}>(true, Tables::Any)",
                      kind, n, {"C06": t}, "ITER", meta=dict(op="into_ascending_sorted_vec", **m),
                      cost=n * n * 10)
+
+
+    # sorted consumption from identity tables at the sizes where the trickle-down reaches the
+    # grandchildren of both children of the root
+    for kind, sizes in (("dq", ((6, THOROUGH), (7, THOROUGH))), ("pq", ((7, THOROUGH), (8, THOROUGH)))):
+        ty = KINDS[kind]["ty"]
+        for n, t in sizes:
+            # (the DoublePriorityQueue iterator under every interleaving takes 15 min at n = 6
+            # and an hour at n = 7: n = 7 is left to the one-directional vectors)
+            inst(f"sorted_{kind}_iter_n{n}_id", f"iters::sorted_iter::<{ty}, {n}>(Tables::Identity)",
+                 kind, n, {"C06": t if not (kind == "dq" and n >= 7) else None}, "ITER", meta=dict(iter="into_sorted_iter", kind=kind, n=n, tables="identity"),
+                 cost=n * n * (40 if kind == "dq" else 6), mem=8)
+            inst(f"sorted_{kind}_vec_desc_n{n}_id", f"iters::sorted_vec::<{ty}, {n}>(false, Tables::Identity)",
+                 kind, n, {"C06": t}, "ITER", meta=dict(op="into_sorted_vec/desc", kind=kind, n=n, tables="identity"),
+                 cost=n * n * (40 if kind == "dq" else 6), mem=8)
+            if kind == "dq":
+                inst(f"sorted_{kind}_vec_asc_n{n}_id", f"iters::sorted_vec::<{ty}, {n}>(true, Tables::Identity)",
+                     kind, n, {"C06": t}, "ITER", meta=dict(op="into_ascending_sorted_vec", kind=kind, n=n, tables="identity"),
+                     cost=n * n * 30, mem=8)
 
 
 _iters()
@@ -350,13 +369,13 @@ def _bulk():
         # ---- extend, rebuild strategy: receiver of 8 (identity tables), hint far above
         for tag, keys in (("ab", [8, 9]), ("xa", [3, 8]), ("xx", [5, 5])):
             for hname in ("far", "max"):
-                t = THOROUGH
+                t = QUICK if (not dq and hname == "far" and tag in ("xa", "xx")) else THOROUGH
                 inst(f"extend_{kind}_n8_m2_{tag}_{hname}_rebuild",
                      f"bulk::extend::<{ty}, 8, 2, {seq_of(keys)}>(Pre::Inv, Tables::Identity, step::ALL, {HINTS[hname]})",
                      kind, 10, {"C07": t, op_: THOROUGH}, "STEP",
                      meta=dict(op="extend", kind=kind, n=8, m=2, keys=keys, hint=hname, strategy="rebuild", tables="identity"),
                      covers_required=False, cost=900 if dq else 200, mem=10)
-            t = THOROUGH
+            t = QUICK if (not dq and tag in ("xa", "xx")) else THOROUGH
             inst(f"extend_{kind}_n8_m2_{tag}_twin",
                  f"bulk::extend_twin::<{ty}, 8, 2, {seq_of(keys)}>(Tables::Identity, bulk::H_NONE, bulk::H_FAR)",
                  kind, 10, {"C07": t}, "STEP",
